@@ -247,6 +247,35 @@ where
         }
     }
 
+    /// Constructor with given intermediate output amounts, used only by the solver-based
+    /// checks in `/verif` (`--cfg gmsol_verif`); `new` is this with both amounts zero.
+    #[cfg(gmsol_verif)]
+    #[allow(clippy::too_many_arguments)]
+    pub(super) fn verif_new_with_amounts(
+        market: &'a mut M,
+        is_output_token_long: bool,
+        is_pnl_token_long: bool,
+        are_pnl_and_collateral_tokens_the_same: bool,
+        prices: &Prices<M::Num>,
+        remaining_collateral_amount: M::Num,
+        output_amount: M::Num,
+        secondary_output_amount: M::Num,
+        is_insolvent_close_allowed: bool,
+    ) -> Self {
+        let mut this = Self::new(
+            market,
+            is_output_token_long,
+            is_pnl_token_long,
+            are_pnl_and_collateral_tokens_the_same,
+            prices,
+            remaining_collateral_amount,
+            is_insolvent_close_allowed,
+        );
+        this.state.report.output_amount = output_amount;
+        this.state.report.secondary_output_amount = secondary_output_amount;
+        this
+    }
+
     fn add_pnl_token_amount(&mut self, deduction_amount_for_pool: M::Num) -> crate::Result<()> {
         if self.state.are_pnl_and_output_tokens_the_same() {
             self.state.output_amount = self
